@@ -124,7 +124,11 @@ def integer_sanitiser(F, rep, rule):
         if const_empty: continue
         n += 1
         fs_ = sp.facts()
-        has_all = any(d[0] == "call" and isinstance(d[1], str) and d[1].endswith("Iterator::all") and truth is True for d, truth, b in fs_)
+        import parsers as _p
+        def digit_pred(d):
+            t_ = f.blocks[d[3]]["t"] if len(d) > 3 and isinstance(d[3], int) and f.blocks[d[3]]["t"][0] == "call" else None
+            return t_ is not None and len(t_[2]) > 1 and _p.closure_pred_name(F, f, t_[2][1]) == "is_ascii_digit"
+        has_all = any(d[0] == "call" and isinstance(d[1], str) and d[1].endswith("Iterator::all") and truth is True and digit_pred(d) for d, truth, b in fs_)
         nonempty = any(d[0] == "call" and isinstance(d[1], str) and d[1].endswith("::is_empty") and truth is False for d, truth, b in fs_)
         if has_all and nonempty: rep.ok(rule, "non-empty result only under all(is_ascii_digit) && !is_empty", sample=txt[:80], nontrivial_key="p%d" % n)
         else: rep.bad(rule, "uint-guard", "sanitize_to_integer can return %s without the digits-only / non-empty guard" % txt[:80], f.where())
